@@ -262,7 +262,9 @@ pub fn run_workload(sub: u64, acc: &mut Acc, ctx: &Ctx, _thorough: bool) {
             std::fs::write(&sp, &f.output).unwrap();
         } else if f.through_child {
             std::fs::write(&sp, &f.output).unwrap();
-            std::fs::write(&rp, b"ORIGINAL BYTES foo foo foo: these must not be searched\n").unwrap();
+            // (sometimes the file itself is empty: the command still has to be run for it)
+            let original: &[u8] = if rng.chance(1, 4) { b"" } else { b"ORIGINAL BYTES foo foo foo: these must not be searched\n" };
+            std::fs::write(&rp, original).unwrap();
         } else {
             std::fs::write(&sp, &f.output).unwrap();
             std::fs::write(&rp, &f.output).unwrap();
